@@ -11,3 +11,8 @@ func (cb *CircuitBreaker) VerifShift(d time.Duration) {
 		cb.lastFailureTime.Add(-int64(d))
 	}
 }
+
+// VerifBreaker exposes the breaker the lifecycle unifier keeps for an endpoint URL (to shift its clock).
+func (u *LifecycleUnifier) VerifBreaker(url string) *CircuitBreaker {
+	return u.endpointManager.GetCircuitBreaker(url)
+}
